@@ -35,7 +35,7 @@ see the original path /a (index 1).  Modelled as it is; both `serve` and `eval` 
 -/
 theorem subroute_error_routes_see_rewritten_uri :
     serve wRewriteRoutes true wRewriteErrs wReq =
-      ⟨[⟨1, 1, none, none⟩, ⟨2, 3, none, none⟩, ⟨3, 3, some 500, some 500⟩, ⟨4, 1, some 404, some 404⟩], some 404⟩ ∧
+      ⟨[⟨1, 1, none, none, 1⟩, ⟨2, 3, none, none, 3⟩, ⟨3, 3, some 500, some 500, 3⟩, ⟨4, 1, some 404, some 404, 1⟩], some 404⟩ ∧
     eval wRewriteRoutes true wRewriteErrs wReq = serve wRewriteRoutes true wRewriteErrs wReq := by decide
 
 /-
@@ -46,9 +46,21 @@ error route answering with "{http.error.status_code}" sends 404.  Modelled as it
 -/
 theorem status_placeholder_stale_after_plain_error :
     serve wStaleRoutes true wStaleErrs wReq =
-      ⟨[⟨1, 1, none, none⟩, ⟨2, 1, some 404, some 404⟩, ⟨3, 1, some 0, some 404⟩], some 404⟩ ∧
+      ⟨[⟨1, 1, none, none, 1⟩, ⟨2, 1, some 404, some 404, 1⟩, ⟨3, 1, some 0, some 404, 1⟩], some 404⟩ ∧
     serve wStaleRoutes true [.mk 0 [] [.pass 3] false] wReq =
-      ⟨[⟨1, 1, none, none⟩, ⟨2, 1, some 404, some 404⟩, ⟨3, 1, some 0, some 404⟩], some 500⟩ := by decide
+      ⟨[⟨1, 1, none, none, 1⟩, ⟨2, 1, some 404, some 404, 1⟩, ⟨3, 1, some 0, some 404, 1⟩], some 500⟩ := by decide
+
+/-
+`WithError` copies the request struct: the URL (a pointer) is shared, `RequestURI` (a string) is
+not.  The inner subroute's error routes run on a copy; their rewrite (handler 2) reaches the OUTER
+subroute's error routes through the URL only, because the outer frame resumes with ITS request
+object: handler 7 sees URL path /b (3) next to RequestURI /a (1).  Modelled as it is.
+-/
+theorem stale_request_uri_in_enclosing_subroute_error_routes :
+    serve wStaleUriRoutes false [] wReq =
+      ⟨[⟨1, 1, none, none, 1⟩, ⟨2, 1, some 500, some 500, 1⟩, ⟨3, 3, some 500, some 500, 3⟩,
+        ⟨7, 3, some 404, some 404, 1⟩], none⟩ ∧
+    eval wStaleUriRoutes false [] wReq = serve wStaleUriRoutes false [] wReq := by decide
 
 /-
 A matcher set is a JSON object; caddy builds it by ranging over a Go map, so the order of the
